@@ -1,13 +1,30 @@
 #!/usr/bin/env python3
-import json, sys, glob
+"""Validate MANIFEST.json and the evidence files of the checks it lists."""
+import glob
+import json
+import os
+import sys
+
 try:
     import jsonschema
 except ImportError:
     sys.path.insert(0, glob.glob('/opt/veriftools/pyvenv/lib/python3*/site-packages')[0])
     import jsonschema
-jsonschema.validate(json.load(open('/verif/MANIFEST.json')), json.load(open('/root/.vp/MANIFEST.schema.json')))
-print('manifest valid')
+m = json.load(open('/verif/MANIFEST.json'))
+jsonschema.validate(m, json.load(open('/root/.vp/MANIFEST.schema.json')))
+print('manifest valid:', len(m['checks']), 'checks')
 sch = json.load(open('/root/.vp/EVIDENCE.schema.json'))
-for f in sorted(glob.glob('/verif/evidence/*.json')):
-    jsonschema.validate(json.load(open(f)), sch)
-    print(f, 'valid')
+bad = 0
+for c in m['checks']:
+    f = c['evidence_file']
+    if not os.path.exists(f):
+        print(f, 'MISSING')
+        bad += 1
+        continue
+    try:
+        jsonschema.validate(json.load(open(f)), sch)
+        print(f, 'valid')
+    except jsonschema.ValidationError as e:
+        print(f, 'INVALID:', e.message)
+        bad += 1
+sys.exit(1 if bad else 0)
